@@ -206,3 +206,4 @@ def extra(ctx):
     p = subprocess.run([ctx.bin, "nesting", "8", "16", "24", "32"], capture_output=True, text=True)
     cov["grl_balanced_nesting_ms"] = {l.split(" ")[1]: int(l.split(" ")[3]) for l in p.stdout.split("\n") if l.startswith("nest ")}
     return fails, cov
+CASE_TIMEOUT = 10      # modelled kernel cases take microseconds; a case that needs 10 s is a hang
